@@ -37,7 +37,7 @@ def log_session(binp, d, logf, lines):
         return until is None
     got = b""
     try:
-        if pump(rb"https://127\.0\.0\.1:(\d+)/c", 8):
+        if pump(rb"https://127\.0\.0\.1:(\d+)/c", 25):
             port = int(re.search(rb"https://127\.0\.0\.1:(\d+)/c", out).group(1))
             # clients which never get as far as a request: plain HTTP on the TLS port, garbage, a TLS client which rejects the self-signed certificate
             for junk in (b"GET / HTTP/1.1\r\nHost: h\r\n\r\n", b"\x16\x03\x01\x00\x05hello", b"SSH-2.0-OpenSSH_9.2\r\n"):
@@ -59,7 +59,7 @@ def log_session(binp, d, logf, lines):
                 ctx = ssl.create_default_context(); ctx.check_hostname = False; ctx.verify_mode = ssl.CERT_NONE
                 c = ctx.wrap_socket(socket.create_connection(("127.0.0.1", port), timeout=5))
                 c.sendall(b"POST /io HTTP/1.1\r\nHost: h\r\nTransfer-Encoding: chunked\r\n\r\n")
-                pump(rb"ready to go", 5)
+                pump(rb"ready to go", 20)
                 c.settimeout(0.3)
                 for l in lines:
                     for k in range(0, len(l), 512):
